@@ -654,7 +654,9 @@ impl ResidencyDb {
             for page in bucket {
                 for entry in &mut page.entries {
                     if key_set.contains(&entry.ekey) {
-                        entry.update_type = ResidencyUpdateType::Delete;
+                        // Rebuild the entry: its hash guard covers the update type
+                        *entry =
+                            ResidencyEntry::new(entry.ekey, entry.span, ResidencyUpdateType::Delete);
                     }
                 }
             }
